@@ -139,6 +139,20 @@ def run(ctx):
     acq = P.body('ripd::workspace_lock::WorkspaceLock::acquire')
     ao = acq.calls(r'Semaphore::acquire_owned$|Semaphore::acquire$|acquire_many')
     ctx.ob('C11.4', acq, 'acquire-one', len(ao) == 1 and ao[0].name == 'acquire_owned', 'acquire takes one owned permit (%s)' % [a.name for a in ao], line=acq.line)
+    # the guard IS the permit: whoever holds a WorkspaceGuard holds the one permit (a guard that can exist without it — an Option that a
+    # timed-out wait leaves None — lets the queued mutation run alongside the holder)
+    ctx.rule('C11.7', 'the guard is the permit: the WorkspaceGuard type carries an OwnedSemaphorePermit by value (not an Option of one), and WorkspaceLock::acquire waits for it unconditionally — no timeout / select / try_acquire stands between the caller and the permit. A long-running task holds the lock for its whole execution; a bounded wait that gives up and proceeds overlaps with it.')
+    gadt = P.adts.get('ripd::workspace_lock::WorkspaceGuard')
+    if gadt is None:
+        raise CheckError('C11.7: ADT ripd::workspace_lock::WorkspaceGuard missing')
+    gf = [fl for v in gadt['variants'] for fl in v['fields']]
+    permit_by_value = [fl for fl in gf if re.search(r'^tokio::sync::(semaphore::)?OwnedSemaphorePermit$', fl['ty'])]
+    ctx.ob('C11.7', 'ripd::workspace_lock::WorkspaceGuard', 'guard-carries-permit', bool(permit_by_value),
+           'WorkspaceGuard fields: %s' % ', '.join('%s: %s' % (fl['name'], fl['ty']) for fl in gf))
+    bounded = acq.calls(r'^tokio::time::timeout::timeout$|^tokio::time::timeout_at$|^tokio::time::timeout::timeout_at$|Semaphore::try_acquire|^tokio::time::sleep::sleep$|^futures_util::future::select|tokio::macros::support::poll_fn')
+    ctx.ob('C11.7', acq, 'acquire-waits-unconditionally', not bounded,
+           'acquire %s' % ('awaits the permit with nothing that can give up' if not bounded else 'wraps the wait in %s: when it gives up the caller proceeds without the lock' % bounded[0].callee),
+           line=bounded[0].line if bounded else acq.line)
 
 
     # ---------------------------------------------------------------- C11.5
